@@ -8,6 +8,12 @@ COMMON_TRUSTED = [
 ]
 
 CONF = {
+    "C06": {
+        "n": {"quick": 400, "thorough": 6000},
+        "shard": 200,
+        "trusted_base": ["yaml.v3 for the Serialize == Merged().Serialize byte comparison"],
+        "assumptions": ["no write descends through an existing scalar or list (the code panics there); generated values carry no nulls (a data null and a padding null are distinguished by pointer identity in ensurePath)", "snapshot isolation (Layers() deep copies) is a Go-side history oracle: a pure model has no sharing"],
+    },
     "C16": {
         "n": {"quick": 900, "thorough": 12000},
         "shard": 900,
